@@ -302,9 +302,7 @@ def judge_message(ctx, go, gf, exp, g, m, sizes, size_m, mods, wit):
     at = G.accessor_tables(gf, tn)
     for p in at["problems"]:
         res.violation("go-accessor-malformed", f"{m.name}: {p}", w)
-    for tbl in ("BpSetByte", "BpGetByte", "BpProcessInt", "BpGetAccessor"):
-        if at["default"].get(tbl) is not True:
-            res.violation("go-accessor-default-missing", f"{m.name}.{tbl}: no default branch", w)
+    # (whether "no case applies" is spelled as a default branch, a trailing return or nothing at all is layout, not judged)
     want = {"BpSetByte": [], "BpGetByte": [], "BpProcessInt": [], "BpGetAccessor": []}
     for f in m.sorted_fields:
         depth, inner, alias = innermost(f.type)
